@@ -5,6 +5,7 @@ import (
 	"sort"
 	"strconv"
 	"strings"
+	"time"
 
 	flags "github.com/jessevdk/go-flags"
 )
@@ -39,6 +40,14 @@ func unitMore(c *unitCase, s []string) string {
 		return okErr(fmt.Sprintf("%v", v), err)
 	case "formatint":
 		return strconv.FormatInt(c.N[0], int(c.N[1]))
+	case "parsefloat":
+		v, err := strconv.ParseFloat(s[0], int(c.N[0]))
+		return okErr(hexs(strconv.FormatFloat(v, 'g', -1, int(c.N[0]))), err)
+	case "parsedur":
+		v, err := time.ParseDuration(s[0])
+		return okErr(fmt.Sprintf("%d", int64(v)), err)
+	case "fmtdur":
+		return hexs(time.Duration(c.N[0]).String())
 	case "trimspace":
 		return hexs(strings.TrimSpace(s[0]))
 	case "tolower":
